@@ -11,9 +11,12 @@ MANIFEST = dict(
          "TLC checks NoLoss, DrainedAll, AfterFinish, ReasonStable, GotAppendOnly and liveness EventuallyWoken over "
          "all operation sequences within the bounds; EVERY edge of that state graph is replayed into the real "
          "AsyncQueue (observation must equal the spec successor's obs, hidden buffer exposed by a Drain edge from "
-         "every state) and random length-40 histories recorded from the real queue are validated by QueueTrace.tla.",
+         "every state) and random length-40 histories recorded from the real queue are validated by QueueTrace.tla. "
+         "Leg H validates executions the harness did not script, recorded through the guarded add-only hooks in "
+         "haiway/utils/queue.py: the queues used by the repository's own test suite, and random producer / consumer / "
+         "canceller / finisher programs running on a real asyncio event loop (no virtual loop, no gates).",
     technique="TLA+ spec + TLC exhaustive model checking; edge-complete graph replay into the implementation; "
-              "batch trace validation (QueueTrace.tla)",
+              "batch trace validation (QueueTrace.tla) of driver-recorded and of hook-recorded executions",
     design="5/C17")
 INVS = ["TypeOK", "NoLoss", "DrainedAll", "AfterFinish", "WaiterSane"]
 PROPS = ["ReasonStable", "GotAppendOnly"]
@@ -170,6 +173,116 @@ def gen_trace(rnd, length):
     return tr
 
 
+class _WorkErr(Exception):
+    pass
+
+
+def real_loop_traces(rnd, runs):
+    """programs on a REAL asyncio event loop (asyncio.run, no virtual loop, no gates): several producers, one consumer
+    that is cancelled and restarted now and then, a finisher; observed through the library's guarded hooks"""
+    from haiway import AsyncQueue
+    from harness import qhook
+    tracer = qhook.install()
+    if tracer is None:
+        return None
+
+    async def program():
+        q = AsyncQueue(*[object() for _ in range(rnd.choice([0, 0, 1, 3]))])
+        state = dict(stop=False)
+
+        async def receive_some():
+            while True:
+                try:
+                    await q.__anext__()
+                except (StopAsyncIteration, _WorkErr):
+                    state["stop"] = True
+                    return
+                except asyncio.CancelledError:
+                    if q.is_finished:                # the queue's own finish reason (queue.cancel()) or the end anyway
+                        state["stop"] = True
+                        return
+                    raise                            # this receive was cancelled: consumption resumes later
+                if rnd.random() < 0.3:
+                    await asyncio.sleep(0)
+
+        async def consumer():
+            while not state["stop"]:
+                t = asyncio.ensure_future(receive_some())
+                for _ in range(rnd.randint(1, 6)):
+                    await asyncio.sleep(0)
+                if not t.done() and rnd.random() < 0.6:
+                    t.cancel()                       # consumption is interrupted ...
+                try:
+                    await t                          # ... and resumes with a new receive afterwards
+                except asyncio.CancelledError:
+                    pass
+
+        async def producer():
+            for _ in range(rnd.randint(1, 6)):
+                for _ in range(rnd.randint(0, 3)):
+                    await asyncio.sleep(0)
+                try:
+                    if rnd.random() < 0.3:
+                        q.enqueue(object(), object())
+                    else:
+                        q.enqueue(object())
+                except RuntimeError:
+                    return
+
+        async def finisher(prods):
+            if rnd.random() < 0.25:
+                for _ in range(rnd.randint(0, 8)):
+                    await asyncio.sleep(0)               # finish while the producers are still at it
+            else:
+                await asyncio.gather(*prods)
+            how = rnd.choice(["stop", "stop", "err", "cancel"])
+            if how == "stop":
+                q.finish()
+            elif how == "err":
+                q.finish(_WorkErr("done"))
+            else:
+                q.cancel()
+
+        prods = [asyncio.ensure_future(producer()) for _ in range(rnd.randint(1, 3))]
+        cons = asyncio.ensure_future(consumer())
+        await finisher(prods)
+        await asyncio.gather(*prods, return_exceptions=True)
+        try:
+            await asyncio.wait_for(cons, 5)
+        except (asyncio.CancelledError, asyncio.TimeoutError):
+            pass
+        if not q.is_finished:
+            q.finish()
+
+    try:
+        for _ in range(runs):
+            asyncio.run(program())
+        return tracer.traces()
+    finally:
+        qhook.uninstall()
+
+
+def repo_test_traces(work):
+    """the repository's own test suite, run with the hooks on and the observer installed as a pytest plugin"""
+    import json
+    import os
+    import subprocess
+    import sys
+    import haiway
+    src = os.path.dirname(os.path.dirname(os.path.abspath(haiway.__file__)))
+    tests = os.path.join(os.path.dirname(src), "tests")
+    if not os.path.isdir(tests):
+        return None
+    out = work.path("repo_test_queue_traces.json")
+    here = os.path.dirname(os.path.dirname(os.path.abspath(__file__)))
+    env = dict(os.environ, HAIWAY_VERIF="1", QHOOK_OUT=out, PYTHONPATH=os.pathsep.join([here, src]))
+    r = subprocess.run([sys.executable, "-m", "pytest", "-q", "-p", "no:cacheprovider", "-p", "harness.qhook", tests],
+                       cwd=os.path.dirname(src), env=env, capture_output=True, text=True, timeout=600)
+    if not os.path.exists(out):
+        return None
+    return json.load(open(out)), r.stdout.strip().splitlines()[-1] if r.stdout.strip() else ""
+
+
 def shape_ok(ev):
     r = ev.get("res")
     if ev["ev"] == "Init":
@@ -222,6 +335,28 @@ def run(rep, work, tier, seed):
     leg_t(rep, work, "QueueTrace", f"trace_{tier}",
           cfg_text(None, spec="TraceSpec", invariants=["NoLoss", "DrainedAll", "AfterFinish"],
                    constraints=["Track"], postcondition="Report"), traces)
+    # leg H: executions this harness did not script, observed through the guarded hooks in haiway/utils/queue.py
+    # (MANIFEST.hooks): the repository's own tests, and random producer / consumer programs on a REAL asyncio loop
+    hooked = []
+    rt = repo_test_traces(work)
+    if rt is not None:
+        hooked += rt[0]
+        rep.extra["hook_traces_repo_tests"] = dict(traces=len(rt[0]), events=sum(len(t) for t in rt[0]), pytest=rt[1])
+    rl = real_loop_traces(random.Random(seed * 13 + 5), 60 if tier == "quick" else 1500)
+    if rl is not None:
+        hooked += rl
+        rep.extra["hook_traces_real_loop"] = dict(traces=len(rl), events=sum(len(t) for t in rl))
+    if hooked:
+        for t in hooked:
+            if not all(shape_ok(e) for e in t):
+                bad = next(e for e in t if not shape_ok(e))
+                rep.violation(dict(leg="H", why="hook observation outside the vocabulary of the specification",
+                                   action=bad["ev"], observed=bad, trace=t), tag="T")
+        leg_t(rep, work, "QueueTrace", f"hooks_{tier}",
+              cfg_text(None, spec="TraceSpec", invariants=["NoLoss", "DrainedAll", "AfterFinish"],
+                       constraints=["Track"], postcondition="Report"), hooked)
+    else:
+        rep.log("leg H skipped: the verification hooks are not present / enabled in this haiway tree")
     rep.assumptions += [
         "single consumer (the class documents that concurrent consumers are unsupported)",
         "CPython 3.12 asyncio Task/Future cancellation semantics; deterministic virtual loop (harness/vloop.py)",
